@@ -212,7 +212,9 @@ def run(ctx):
         "rule": "cases: (a) every raw value of every size 1..12 (thorough: 1..18), both signednesses, integer / decimal / custom "
                 "types with scale/offset pairs cycled from fixed pools (small and large integers, dyadic and non-dyadic "
                 "fractions, tiny/huge magnitudes), decoded through Message.SignalLayout().Decode on a real 8-byte "
-                "little-endian message at a random start bit with random surrounding bits; (b) sizes 1..64 x both "
+                "little-endian message at a random start bit with random surrounding bits, the type being obtained in turn by "
+                "11 routes (constructor, Clone, UpdateSigned, setters, and StandardSignal.SetType on a placed signal that had a type "
+                "of the same shape with another conversion rule / of another size or kind / of the other signedness); (b) sizes 1..64 x both "
                 "signednesses x every pool pair on boundary raws (0,1,2^(n-1)-1,2^(n-1),2^n-1, 2^53(+1), patterns) + seeded "
                 "random raws; (c) flags at all 64 positions; (d) Min()/Max() of all 2x2x64 integer/decimal types; (e) "
                 "calcSizeFromValue on 2^k-1,2^k,2^k+1 up to 2^63-1 + random, calcValueFromSize on -2..70; (f) multiplexers "
